@@ -49,7 +49,8 @@ class SimLoop(base_events.BaseEventLoop):
         while tb is not None:
             last = tb
             tb = tb.tb_next
-        if last is not None and "/vf/" in last.tb_frame.f_code.co_filename and "aioesphomeapi" not in last.tb_frame.f_code.co_filename:
+        # (the environment fakes - simnet, world, devices - raise on purpose, as the OS / the peer would)
+        if last is not None and last.tb_frame.f_code.co_filename.rsplit("/", 1)[-1] in ("connsim.py", "clientsim.py", "sessionsim.py", "reconsim.py"):
             self.harness_errors.append(f"{type(exc).__name__}: {exc} at {last.tb_frame.f_code.co_filename}:{last.tb_lineno}")
 
     # ---- activation
